@@ -1,11 +1,11 @@
 import Operon.Model.Atp
-/-! # C04 — energy ledger (work in progress: model of the CURRENT tree, witnesses of its defects) -/
+/-! # C04 — energy ledger (work in progress) -/
 namespace Operon.Atp
 
-/-- top-up then debt overcharges: budget 5, NADH 3, `consume(10, allow_debt=True)` removes 13 -/
-theorem c04_topup_then_debt_overcharge_witness :
+/-- regression of the top-up-then-debt overcharge: budget 5, NADH 3, `consume(10, allow_debt=True)` removes 10 -/
+theorem c04_topup_then_debt_regression :
     let s := Store.fresh 5 0 3 100 1 10
-    ((consumeCore s 10 .atp true 0).2.success = true) ∧ (consumeCore s 10 .atp true 0).1.worth = s.worth - 13 := by
+    ((consumeCore s 10 .atp true 0).2.success = true) ∧ (consumeCore s 10 .atp true 0).1.worth = s.worth - 10 := by
   decide
 
 end Operon.Atp
